@@ -155,10 +155,20 @@ func (r *Registry) Get(metricName string, hash metrics.LabelHash, metricType met
 	return nil, nil
 }
 
+// refreshTTL applies the ttl of the mapping that matched the current sample to
+// an already registered series, so that a ttl changed by a config reload takes
+// effect on live series as well.
+func (r *Registry) refreshTTL(metricName string, hash metrics.LabelHash, ttl time.Duration) {
+	if rm, ok := r.Metrics[metricName].Metrics[hash.Values]; ok {
+		rm.TTL = ttl
+	}
+}
+
 func (r *Registry) GetCounter(metricName string, labels prometheus.Labels, help string, mapping *mapper.MetricMapping, metricsCount *prometheus.GaugeVec) (prometheus.Counter, error) {
 	hash, labelNames := r.HashLabels(labels)
 	vh, mh := r.Get(metricName, hash, metrics.CounterMetricType)
 	if mh != nil {
+		r.refreshTTL(metricName, hash, mapping.Ttl)
 		return mh.(prometheus.Counter), nil
 	}
 
@@ -211,6 +221,7 @@ func (r *Registry) GetGauge(metricName string, labels prometheus.Labels, help st
 	hash, labelNames := r.HashLabels(labels)
 	vh, mh := r.Get(metricName, hash, metrics.GaugeMetricType)
 	if mh != nil {
+		r.refreshTTL(metricName, hash, mapping.Ttl)
 		return mh.(prometheus.Gauge), nil
 	}
 
@@ -251,6 +262,7 @@ func (r *Registry) GetHistogram(metricName string, labels prometheus.Labels, hel
 	hash, labelNames := r.HashLabels(labels)
 	vh, mh := r.Get(metricName, hash, metrics.HistogramMetricType)
 	if mh != nil {
+		r.refreshTTL(metricName, hash, mapping.Ttl)
 		return mh.(prometheus.Observer), nil
 	}
 
@@ -313,6 +325,7 @@ func (r *Registry) GetSummary(metricName string, labels prometheus.Labels, help 
 	hash, labelNames := r.HashLabels(labels)
 	vh, mh := r.Get(metricName, hash, metrics.SummaryMetricType)
 	if mh != nil {
+		r.refreshTTL(metricName, hash, mapping.Ttl)
 		return mh.(prometheus.Observer), nil
 	}
 
